@@ -188,7 +188,14 @@ class _StatePointDict(JSONAttrDict):
             if error.errno != errno.ENOENT:
                 raise
 
+        old_filename = self.filename
         self.filename = job._statepoint_filename
+        if type(self)._threading_support_is_active:
+            # Setting the filename moves the per-file lock of this class to the
+            # new name. Independently opened handles of the old job have their
+            # own state point object for the old name and still need a lock.
+            with type(self)._cls_lock:
+                type(self)._locks.setdefault(old_filename, RLock())
 
         if should_init:
             # Only initializing one job assumes that all changes in init are
